@@ -16,14 +16,14 @@ MC_QM = dict(name="MC_QueueMap", module="QueueMapMC.tla", cfg="MC_QueueMap.cfg",
              expect_actions=["QNext"])
 WAL_STEPS = ["CallBegin", "StepEntry", "StepWrite", "StepFlush", "StepFsync", "StepDirSync", "StepCreate", "StepSetLen",
              "StepUnlink", "StepMem", "StepPromise", "StepReturn", "Open"]
-MC_CLEAN = dict(name="MC_Clean", module="MC_Wal.tla", cfg="MC_Clean_quick.cfg", cfg_thorough="MC_Clean.cfg",
+MC_CLEAN = dict(coverage=False, name="MC_Clean", module="MC_Wal.tla", cfg="MC_Clean_quick.cfg", cfg_thorough="MC_Clean.cfg",
                 expect_actions=WAL_STEPS + ["Restart"], timeout=3000)
-MC_CRASH = dict(name="MC_Crash", module="MC_Wal.tla", cfg="MC_Crash_quick.cfg", cfg_thorough="MC_Crash.cfg",
+MC_CRASH = dict(coverage=False, name="MC_Crash", module="MC_Wal.tla", cfg="MC_Crash_quick.cfg", cfg_thorough="MC_Crash.cfg",
                 expect_actions=WAL_STEPS + ["CrashProcess"], expect_actions_thorough=WAL_STEPS + ["CrashProcess", "StepOpenNext"],
                 timeout=7000)
-MC_POLICY = dict(name="MC_Policy", module="MC_Wal.tla", cfg="MC_Policy_quick.cfg", cfg_thorough="MC_Policy.cfg",
+MC_POLICY = dict(coverage=False, name="MC_Policy", module="MC_Wal.tla", cfg="MC_Policy_quick.cfg", cfg_thorough="MC_Policy.cfg",
                  expect_actions=WAL_STEPS + ["CrashProcess", "CrashPower"], timeout=7000)
-MC_POLICY_FSYNC = dict(name="MC_Policy_fsync", module="MC_Wal.tla", cfg="MC_Policy_fsync_quick.cfg",
+MC_POLICY_FSYNC = dict(coverage=False, name="MC_Policy_fsync", module="MC_Wal.tla", cfg="MC_Policy_fsync_quick.cfg",
                        cfg_thorough="MC_Policy_fsync.cfg", expect_actions=WAL_STEPS + ["CrashProcess", "CrashPower"], timeout=7000)
 MC_READER = dict(name="MC_Reader", module="Reader.tla", cfg="MC_Reader.cfg", expect_actions=["ReadFrame", "Header", "IntoWriter"])
 MC_FRAMES = dict(name="MC_Frames", module="MC_Frames.tla", cfg="MC_Frames_quick.cfg", cfg_thorough="MC_Frames_tiny.cfg")
